@@ -58,7 +58,6 @@ def h_operator(ctx: Ctx, cfg):
     ctx.require(OR.snap_eq(s1, OR.genotype_snapshot(kind, p1)), "inputs:parent-modified-by-operator", {"op": cfg["op"], "which": "first"})
     ctx.require(OR.snap_eq(s2, OR.genotype_snapshot(kind, p2)), "inputs:parent-modified-by-operator", {"op": cfg["op"], "which": "second"})
     for o in offspring:
-        ctx.require(o is not p1 and o is not p2, "inputs:operator-returns-the-parent-object-itself")
         if kind != "tree":
             ctx.require(o.dna is not p1.dna and o.dna is not p2.dna, "inputs:offspring-shares-gene-container-with-parent")
             if isinstance(o.dna, dict):
@@ -159,6 +158,8 @@ def obligations(tier: str):
 
     for op in ("mutate", "crossover"):
         add("operator", f"tree_{op}_f0", fixture="f0", rep="tree", decider="grow", max_depth=2, op=op, timeout=200)
+        if T or op == "crossover":
+            add("operator", f"tree_{op}_f11_concrete_start", fixture="f11", rep="tree", decider="grow", max_depth=3, op=op, timeout=300)
         add("operator", f"tree_{op}_f2l", fixture="f2", grammar_fn="grammar_lst", rep="tree", decider="grow", max_depth=2, op=op, timeout=250) if T or op == "mutate" else None
         for rep in ("ge", "stack"):
             add("operator", f"{rep}_{op}", fixture="f0", rep=rep, decider="grow", max_depth=2, gene_length=4 if T else 3, op=op, failures_limit=1, gene_fuel=8)
